@@ -603,4 +603,8 @@ func TestC01(t *testing.T) {
 	h.Run(c, "wild", c.N(12000, 150000), genWild, oracle)
 	h.Run(c, "mutated", c.N(8000, 100000), genMutated, oracle)
 	h.Run(c, "scopes", c.N(300, 4000), genScopes, oracle)
+	// eighth round (round8_test.go)
+	c.Rule(fmt.Sprintf("slots: a string or a slice (6 content kinds) in a slot of %d forms (element of a typed slice, struct field, pointee, map entry, field of an element, element of an element, untyped / interface-typed places, variable, module member) and one or two statements of %d index / slice forms (open lower or upper bound, both bounds, three-index, chained, stores through an index or a slice, the slot as operand of calls / for-in / switch / send) in which an index operand is a call that stores something shorter, longer, empty, nil or of another kind into that very slot, or replaces the container the slot is in; at top level and inside if / loop / try / function / goroutine / deferred call / module. types: one to three types defined from values of every kind (a module, a Go function, an error, a type value among them), held in variables, lists, maps, struct fields, typed slices and channels of types, behind pointers; %d statement forms over type values of 40 forms (dereferenced, copied out of a list / map / call, for-in items, method results, inline definitions): %d method calls of reflect.Type with fitting and unfitting arguments, uses of their results, method values, go / defer, every operator, stores, and the type names in every type form", len(slotHomes), len(slotForms), len(typeForms), len(typeMethods)))
+	h.Run(c, "slots", c.N(4000, 50000), genSlots, oracle)
+	h.Run(c, "types", c.N(5000, 60000), genTypes, oracle)
 }
